@@ -11,16 +11,22 @@ LABEL_POOL = ['local', 'Local', '_tcp', '_udp', '_http', '_HTTP', '_ipp', 'host'
               '日本', 'x' * 20, 'y' * 40, 'z' * 62, 'w' * 63, 'My', 'Printer', '_sub', '_printer', 'example', 'com']
 
 
+ASCII_ONLY = False
+
+
 def rand_label(rng: random.Random, allow_long: bool) -> str:
     r = rng.random()
     if r < 0.75:
-        return rng.choice(LABEL_POOL)
+        lab = rng.choice(LABEL_POOL)
+        return lab if (lab.isascii() or not ASCII_ONLY) else 'ascii'
     if r < 0.9:
         n = rng.choice([1, 2, 5, 30, 61, 62, 63])
         return ''.join(rng.choice('abcXYZ019-_ ') for _ in range(n))
     if allow_long and r < 0.93:
         n = rng.choice([64, 64, 65, 100])
         return 'L' * n
+    if ASCII_ONLY:
+        return 'q' * rng.choice([1, 7, 63])
     # multi-byte characters near the 63 byte limit
     n = rng.choice([10, 20, 21])
     return 'é' * n + rng.choice(['', 'a', 'ab', 'abc'])
